@@ -11,3 +11,4 @@ import Pdpy11.Props.C05
 import Pdpy11.Props.C17
 import Pdpy11.Props.C18
 import Pdpy11.Props.C07
+import Pdpy11.Props.C02
